@@ -13,6 +13,7 @@ package main
 //        <i>t       RestoreChunk(i) with the file truncated
 //        <i>s       RestoreChunk(i) with the bytes of chunk i+1 (well-formed, wrong digest for this index)
 //        <i>x       RestoreChunk(i) with the real bytes under an already cancelled context (must stay restorable)
+//        S          StartMultipartInsert again for the version in progress (idempotent)
 //        A          abort and restart the whole restore (AbortRestore + AbortMultipartInsert)
 //   restorec BACKEND N SEED         N goroutines restore all chunks concurrently, each in its own order
 //   raceabort I J                   RestoreChunk(I) is in flight while RestoreChunk(J) (bad proof) aborts the restore
@@ -626,6 +627,16 @@ func (c *c12Runner) runRestore(backend string, steps []string) {
 			}
 			continue
 		}
+		if st == "S" {
+			// StartMultipartInsert again for the version being restored (as a further restore of the same
+			// version does, e.g. the second root type): must be accepted and change nothing
+			if err := ndb.StartMultipartInsert(s.root.Version); err != nil {
+				c.fail("spec", "spec-repeated-start-multipart-refused", "StartMultipartInsert of the version in progress: "+err.Error())
+				return
+			}
+			c.res.Count("restore:start-again")
+			continue
+		}
 		kind := byte(0)
 		if strings.HasSuffix(st, "f") || strings.HasSuffix(st, "t") || strings.HasSuffix(st, "s") || strings.HasSuffix(st, "x") {
 			kind = st[len(st)-1]
@@ -1021,6 +1032,8 @@ func genCaseC12(r *hlib.Rng, res *hlib.Result, i int, big int) []string {
 					steps = append(steps, fmt.Sprintf("%ds", x))
 				case y == 4:
 					steps = append(steps, fmt.Sprintf("%dx", x))
+				case y == 5:
+					steps = append(steps, "S")
 				default:
 					steps = append(steps, fmt.Sprint(x))
 				}
